@@ -22,6 +22,21 @@ CHECKS = {
    ref="DESIGN.md 3.3, 4 C04",
    note=TB + " Entry contracts: non-nil receivers, header parsed from the same bytes, IKESAKey nil or fully populated; Iv/Padding never assigned by non-test code.",
    tech="static analysis: SSA dataflow with wrap-aware linear forms, dominator facts, loop-variant templates"),
+ "C07": dict(cat="other",
+   text="Decides structural necessary conditions, not key values: the slice chain of GenerateKeyForIKESA is normalised into an offset table over P/A/E (key lengths of the SA's own PRF/integrity/encryption descriptors) and compared with RFC 7296 2.14 (order d,ai,ar,ei,er,pi,pr; total 3P+2A+2E); SKEYSEED argument roles; the seed concat list Ni|Nr|SPIi|SPIr by an ordered walk; the prf+ loop structure (Reset, T(n-1)|S|n, counter from 1, chaining block, truncation); registry lengths/hash/guards vs the RFC table; objects keyed with their own keys; NewIKESAKey argument order.",
+   ref="DESIGN.md 4 C07",
+   note=TB + " HMAC of the standard library is correct; RFC table transcribed by hand.",
+   tech="static analysis: slice-chain normalisation with linear forms, structural matching of the prf+ loop, constant evaluation of registries"),
+ "C08": dict(cat="other",
+   text="Decides structural necessary conditions: KEYMAT requested as 2(E+A) with A=0 exactly when no integrity transform is negotiated, slices ei/ai/er/ar at the RFC 7296 2.17 offsets, copied out of the stream, prf+ keyed with the IKE SA's SK_d object and seeded with the nonce, prf+ structure as in C07, and hash typestate (Reset before every Write) for every derivation on the long-lived object.",
+   ref="DESIGN.md 4 C08",
+   note=TB,
+   tech="static analysis: slice-chain normalisation with linear forms, phi/guard matching, hash typestate dataflow"),
+ "C09": dict(cat="other",
+   text="Decides structural necessary conditions: prime constants (exact go/types values) equal the primes the checker derives from the RFC 2409/3526 formula with pi from a Machin series; generator 2; init wiring of constant -> descriptor -> IANA group number; both methods of both groups have the shape Zero(L-len(x))||x with x = Exp(base, secret, own modulus).Bytes(); exponent source crypto/rand.Int(rand.Reader, 2^2048-1) with error discipline and the > 2^128-1 edge; bounds set once in init; one secret feeds public value and shared key. Modular exponentiation and agreement of two parties are theorems about math/big, not decided.",
+   ref="DESIGN.md 3.7, 4 C09",
+   note=TB + " math/big is correct; Exp result < modulus.",
+   tech="static analysis: exact constant comparison against checker-derived reference values, structural shape matching on SSA, error-discipline paths"),
  "C11": dict(cat="other",
    text="Exhaustive over the finite registries (13 algorithms, 18 descriptors, 11 stringifiers): each descriptor's methods are evaluated by constant propagation and compared with an RFC reference table (identifier, key-length attribute, key/output length, hash, key-length guard); closure (stringifier of the descriptor's own id on its own attribute returns its own name) and no-foreign-mapping (every name-returning path pins the attribute to that name's values; identifier matches) are decided on the decision trees of the stringifiers; Decode/ToTransform shapes and the nil-descriptor guards of the SA constructors are structural rules. The wire round trip of the transform itself is C03/C05.",
    ref="DESIGN.md 3.7, 4 C11",
@@ -32,6 +47,11 @@ CHECKS = {
    ref="DESIGN.md 4 C13",
    note=TB,
    tech="static analysis: CFG/φ structure rules, dispatch-table extraction, finite-domain evaluation of a one-octet test, structural expression equality"),
+ "C16": dict(cat="other",
+   text="Decides the shape and constants of EapAkaPrimePRF against RFC 5448/9048: key concat IK'|CK', S = \"EAP-AKA'\"|Identity (exact string constant), a fresh HMAC-SHA-256 per round, data = T(n-1)|S|byte(n) with T(0) empty and n from 1 (buffer construction by make/copy/index-store matched structurally), >= 7 rounds, five result slices at the prescribed offsets in the prescribed order, empty-key guard dominating every HMAC and returning an error without keys. HMAC values are not decided.",
+   ref="DESIGN.md 4 C16",
+   note=TB,
+   tech="static analysis: structural matching of the PRF' loop on SSA, slice-chain normalisation, dominating-fact proofs"),
  "C17": dict(cat="proof",
    text="Proof of a sufficient structural condition: (1) hash.Hash typestate by forward dataflow over every module function using a hash (Write only on a fresh object or after Reset with no Sum in between); (2) every IKECrypto method is receiver-pure (transitive mod-set, alias analysis for element writes); (3) IKESAKey fields are stored only by GenerateKeyForIKESA/NewIKESAKey and protect/unprotect/child-derivation mod-sets contain no SA field. Hence no operation leaves state that a later one reads.",
    ref="DESIGN.md 3.5, 4 C17",
